@@ -308,6 +308,13 @@ fn nest_inputs(tier: Tier) -> Vec<String> {
             v.push(format!("let x = {}\n", unit.repeat(k)));
         }
     }
+    // nested declaration loops: the per-loop iteration limit (10_000) does not bound the product
+    for n in [30usize, 200, 3000, 10_000] {
+        v.push(format!("for i in 0..{n}:\n    for j in 0..{n}:\n        stream S{{i}}_{{j}} = A\n"));
+    }
+    for n in [10usize, 10_000] {
+        v.push(format!("for i in 0..{n}:\n    for j in 0..{n}:\n        for k in 0..{n}:\n            stream S{{i}}_{{j}}_{{k}} = A\n"));
+    }
     // literal edge values: every month 00..=99 of a timestamp literal x edge days x edge years (the
     // grammar admits any digits), time-of-day/zone suffixes on edge months, and numeric / duration
     // literals around the i64 and f64 limits
@@ -1130,7 +1137,7 @@ pub fn run(args: &Args) -> ! {
     rep.absorb(acc);
     let seed_names = |v: &[usize]| v.iter().map(|i| gen.seeds[*i].path.trim_start_matches("/repo/").to_string()).collect::<Vec<_>>().join(", ");
     rep.rule = format!(
-        "Exhaustive, every input run by the real varpulis_parser::parse in a child process with a {} ms budget per input: (a) all strings of length <= {} over the alphabet {:?}; (b) for each seed in [{}] (shipped example programs, examples/**/*.vpl, exact duplicates dropped, smallest first): the program itself, every single-token deletion, duplication and substitution by each of the 40 dictionary tokens {:?} (tokens = identifier/number runs, runs of spaces, every other char); for each seed in [{}]: every single-char deletion and every insertion of one alphabet symbol at every char boundary{}; (c) bracket nesting: prefixes {{none, assignment, stream .where(, fn body}} x brackets {{(, [, {{, mixed}} x depth 1..={} x core {{none, 1, a}} x closers {{0, d/2, d}}, and block nesting by indentation: {{if, while, for}} headers nested 1..={} deep x unit {{space, tab, 4 spaces}} x {{with, without}} innermost statement{}; unclosed bracket chains: `let x = ` + k copies of a unit opening two brackets and closing none, units {{s[U6[2*2, a[b(, f(a[}}, k in {} (at most 24 open brackets, the parser's own nesting limit); literal edges: timestamp literals @Y-M-D for years {{0000,1970,2024,2262,2263,9999}} x every month 00..=99 x days {{00,01,28,29,31,32,99}} (plus 3 time/zone suffixes on months 00,01,02,12,13) and integer/float/duration literals around the i64/u64/f64 limits with every duration unit. Non-trivial = the parser returned a program with at least one statement, or an error located after offset 0.",
+        "Exhaustive, every input run by the real varpulis_parser::parse in a child process with a {} ms budget per input: (a) all strings of length <= {} over the alphabet {:?}; (b) for each seed in [{}] (shipped example programs, examples/**/*.vpl, exact duplicates dropped, smallest first): the program itself, every single-token deletion, duplication and substitution by each of the 40 dictionary tokens {:?} (tokens = identifier/number runs, runs of spaces, every other char); for each seed in [{}]: every single-char deletion and every insertion of one alphabet symbol at every char boundary{}; (c) bracket nesting: prefixes {{none, assignment, stream .where(, fn body}} x brackets {{(, [, {{, mixed}} x depth 1..={} x core {{none, 1, a}} x closers {{0, d/2, d}}, and block nesting by indentation: {{if, while, for}} headers nested 1..={} deep x unit {{space, tab, 4 spaces}} x {{with, without}} innermost statement{}; unclosed bracket chains: `let x = ` + k copies of a unit opening two brackets and closing none, units {{s[U6[2*2, a[b(, f(a[}}, k in {} (at most 24 open brackets, the parser's own nesting limit); nested declaration loops n x n for n in {{30, 200, 3000, 10000}} and n x n x n for n in {{10, 10000}}; literal edges: timestamp literals @Y-M-D for years {{0000,1970,2024,2262,2263,9999}} x every month 00..=99 x days {{00,01,28,29,31,32,99}} (plus 3 time/zone suffixes on months 00,01,02,12,13) and integer/float/duration literals around the i64/u64/f64 limits with every duration unit. Non-trivial = the parser returned a program with at least one statement, or an error located after offset 0.",
         BUDGET.as_millis(),
         gen.short.max_len,
         ALPHABET,
